@@ -138,4 +138,5 @@ let install register =
        | Model.Fuel -> "FUEL")
     | _ -> "BADARGS") in
   register "lzexp" (lzexp true);
-  register "lzexpn" (lzexp false)
+  register "lzexpn" (lzexp false);
+  register "lzexpm" (lzexp true)
